@@ -8,6 +8,7 @@ From Blue Require Import Conc.Props_C06.
 Check C06_refines_atomic_store : forall s0 m0 t0 ls st, m0 < s0 -> run (init s0 m0 t0) ls = Some st -> exists sp, srun sinit ls = Some sp.
 Check C06_per_key_linearizable : forall s0 m0 t0 pre t r st, m0 < s0 -> run (init s0 m0 t0) (pre ++ [LRetGet t r]) = Some st -> exists pre1 pre2 pre3 k ts, pre = pre1 ++ LInvR t (QGet k) :: pre2 ++ LSnap t ts :: pre3 /\ no_inv t pre2 /\ no_inv t pre3 /\ let V := dbof (pre1 ++ LInvR t (QGet k) :: pre2) in r = db_value V k /\ prefix_of (dbof pre1) V /\ prefix_of V (dbof pre) /\ db_asc (dbof pre).
 Check C06_write_commits_before_return : forall s0 m0 t0 pre t st, m0 < s0 -> run (init s0 m0 t0) (pre ++ [LWRet t]) = Some st -> exists pre1 pre2 pre3 b0 s, pre = pre1 ++ LInvW t b0 :: pre2 ++ LWPublish t s :: pre3 /\ no_inv t pre2 /\ no_inv t pre3 /\ dbof (pre1 ++ LInvW t b0 :: pre2 ++ [LWPublish t s]) = dbof (pre1 ++ LInvW t b0 :: pre2) ++ [(s, dedupe b0)].
+Check C06_failed_write_has_no_effect : forall s0 m0 t0 pre t st, m0 < s0 -> run (init s0 m0 t0) (pre ++ [LWRetF t]) = Some st -> (exists pre1 pre2 b0, pre = pre1 ++ LInvW t b0 :: pre2 /\ no_inv t pre2 /\ (forall s, ~ In (LWPublish t s) pre2)) /\ dbof (pre ++ [LWRetF t]) = dbof pre.
 Check C06_no_stale_read : forall (inv view : db) s b k v, db_asc view -> prefix_of inv view -> In (s, b) inv -> batch_get b k = Some v -> exists s' v', db_get view k = Some (s', v') /\ s <= s' /\ db_value view k = Some v' /\ (s' = s -> v' = v).
 Check C06_no_unwritten_value : forall (view : db) k, match db_value view k with | Some v => exists s b, In (s, b) view /\ batch_get b k = Some v | None => forall s b, In (s, b) view -> batch_get b k = None end.
 Check C06_monotone_reads : forall s0 m0 t0 pre x st k s1 v1, m0 < s0 -> run (init s0 m0 t0) (pre ++ x) = Some st -> db_get (dbof pre) k = Some (s1, v1) -> prefix_of (dbof pre) (dbof (pre ++ x)) /\ exists s2 v2, db_get (dbof (pre ++ x)) k = Some (s2, v2) /\ s1 <= s2.
